@@ -1,6 +1,6 @@
 (* C10 — Arena bookkeeping and reported statistics are always coherent. *)
 From Coq Require Import ZArith List.
-From BS Require Import Word BumpSpec ChunkSpec Arena ArenaInv ArenaStats ArenaExt ArenaInv2 ArenaSizes.
+From BS Require Import Word BumpSpec ChunkSpec Arena ArenaInv ArenaStats ArenaExt ArenaInv2 ArenaSizes ArenaHeader.
 Import ListNotations.
 Open Scope Z_scope.
 
@@ -48,6 +48,23 @@ Theorem C10_fresh_arena_qualifies :
   forall c s, cfg_ok c -> ginv c s -> (length (chunks s) <= 1)%nat -> incr (sizes s).
 Proof. exact incr_fresh. Qed.
 
+(* the chunk header: inside the granted block, aligned, disjoint from the content range, and no live
+   block overlaps the header of any chunk (ArenaHeader.v) *)
+Theorem C10_header_inside_granted_block :
+  forall c ch, cfg_ok c -> chunk_geom c ch ->
+  (cbase ch <= header_start c ch /\ header_start c ch + hs c <= cbase ch + cgranted ch) /\
+  (ha c | header_start c ch) /\
+  (header_start c ch + hs c <= content_start c ch \/ content_end c ch <= header_start c ch).
+Proof.
+  intros c ch Hc Hg. split; [apply header_inside_granted; assumption|].
+  split; [apply header_aligned; assumption | apply header_disjoint_from_content].
+Qed.
+
+Theorem C10_live_block_misses_every_header :
+  forall c s b k ch, cfg_ok c -> inv c s -> In b (live s) -> nth_error (chunks s) k = Some ch ->
+  disjoint_rng (bptr b) (bsize b) (header_start c ch) (hs c).
+Proof. exact live_block_misses_every_header. Qed.
+
 Print Assumptions C10_stats_identities.
 Print Assumptions C10_reachable.
 Print Assumptions C10_chunks_strictly_grow.
@@ -55,3 +72,5 @@ Print Assumptions C10_fresh_arena_qualifies.
 Print Assumptions C10_position_and_geometry.
 Print Assumptions C10_dummy_reports_zero.
 Print Assumptions C10_reachable_partial.
+Print Assumptions C10_header_inside_granted_block.
+Print Assumptions C10_live_block_misses_every_header.
